@@ -181,6 +181,8 @@ def get_lexer_parser(dialect):
         from mindsdb_sql.parser.dialects.mindsdb.lexer import MindsDBLexer
         from mindsdb_sql.parser.dialects.mindsdb.parser import MindsDBParser
         lexer, parser = MindsDBLexer(), MindsDBParser()
+        # raw inner queries are cut out of the text that the lexer tokenizes
+        parser.lexer = lexer
     else:
         raise ParsingException(f'Unknown dialect {dialect}. Available options are: sqlite, mysql.')
     return lexer, parser
